@@ -63,6 +63,21 @@ Theorem C09_fine_bound : forall w cap n ls,
   length (c_queue (crun w cap n ls)) + held (crun w cap n ls) <= cap.
 Proof. exact chan_bound. Qed.
 
+(* ... while the channel is open a send never fails, while a permit is free it does not wait, and
+   into a full open channel it waits (any state of the permit-granularity model) *)
+Theorem C09_fine_open_never_fails : forall w c i, c_closed c = false -> cstep w c (KFail i) = c.
+Proof. exact chan_open_never_fails. Qed.
+
+Theorem C09_fine_no_wait_while_free : forall w c i s,
+  nth_error (c_senders c) i = Some s -> sn_st s = SIdle -> c_closed c = false -> 0 < c_free c ->
+  exists s', nth_error (c_senders (cstep w c (KAcquire i))) i = Some s' /\ sn_st s' = SHeld /\
+             c_free (cstep w c (KAcquire i)) + 1 = c_free c.
+Proof. exact chan_no_wait_while_free. Qed.
+
+Theorem C09_fine_full_waits : forall w c i,
+  c_closed c = false -> c_free c = 0 -> cstep w c (KAcquire i) = c /\ cstep w c (KFail i) = c.
+Proof. exact chan_full_waits. Qed.
+
 Check C09_bound. Check C09_waiting_not_lost. Check C09_zero_rejected. Check C09_shape. Check C09_default_config.
 Print Assumptions C09_bound.
 Print Assumptions C09_waiting_not_lost.
@@ -72,3 +87,7 @@ Print Assumptions C09_default_config.
 Print Assumptions C09_example_run.
 Check C09_fine_bound.
 Print Assumptions C09_fine_bound.
+Check C09_fine_open_never_fails. Check C09_fine_no_wait_while_free. Check C09_fine_full_waits.
+Print Assumptions C09_fine_open_never_fails.
+Print Assumptions C09_fine_no_wait_while_free.
+Print Assumptions C09_fine_full_waits.
